@@ -356,8 +356,65 @@ def run(ctx: Context, rep) -> None:
     rustrules.check_rotation(ctx, rep, "C03.rust")
     from sa.rules import shared as _shared
     _shared.check_fresh_pass(ctx, rep, "C03.fresh-pass")
+    # nothing read from the dataset's files / the environment is memoised
+    from sa.rules import shared as _shm
+    _shm.check_no_memo(ctx, rep, "C03.memo")
+    # write order is list order: shards enter a list's `shard_files` at the
+    # end only
+    rep.rule(
+        "C03.append",
+        "every mutation of a `shard_files` list in sedpack.io (directly or "
+        "through a local alias) is append / extend; no insert, sort, reverse, "
+        "pop, remove, item / slice assignment, del or re-binding to a "
+        "reordered copy")
+    from sa.valuation import single_defs as _sd
+    n_app = 0
+    for fn_ in ctx.repo.all_functions():
+        if not fn_.module.name.startswith("sedpack.io") or isinstance(
+                fn_.node, ast.Lambda):
+            continue
+        defs_ = None
 
+        def is_list(e) -> bool:
+            nonlocal defs_
+            if isinstance(e, ast.Attribute) and e.attr == "shard_files":
+                return True
+            if isinstance(e, ast.Name):
+                if defs_ is None:
+                    defs_ = _sd(fn_)
+                v = defs_.get(e.id)
+                return isinstance(v, ast.Attribute) and v.attr == "shard_files"
+            return False
 
+        for n_ in fn_.body_nodes():
+            bad = None
+            if isinstance(n_, ast.Call) and isinstance(n_.func, ast.Attribute) \
+                    and is_list(n_.func.value):
+                if n_.func.attr in ("append", "extend"):
+                    n_app += 1
+                    continue
+                if n_.func.attr in ("insert", "sort", "reverse", "pop",
+                                    "remove", "clear"):
+                    bad = n_
+            elif isinstance(n_, (ast.Assign, ast.AugAssign, ast.Delete)):
+                tgts = n_.targets if not isinstance(n_, ast.AugAssign) \
+                    else [n_.target]
+                for t_ in tgts:
+                    if isinstance(t_, ast.Subscript) and is_list(t_.value):
+                        bad = n_
+                    if isinstance(t_, ast.Attribute) and \
+                            t_.attr == "shard_files" and isinstance(
+                                n_, ast.Assign) and not (isinstance(
+                                    n_.value, ast.List) and not n_.value.elts):
+                        bad = n_
+            if bad is not None:
+                rep.ob("C03.append", False, loc=fn_.loc(bad),
+                       where=fn_.qualname, construct=short(bad, 70),
+                       message="a shard list is changed other than by "
+                       "appending: the list order no longer is the write order")
+    rep.ob("C03.append", n_app >= 1, loc="src/sedpack/io/dataset_filler.py:1",
+           where="sedpack.io", construct=f"{n_app} append site(s)",
+           message="shards are appended to their list")
 
 def eval_local(r, expr: ast.AST):
     """Evaluate a local that is assigned from constant-foldable expressions
@@ -389,6 +446,14 @@ _DI = "src/sedpack/io/dataset_iteration.py"
 _DB = "src/sedpack/io/dataset_base.py"
 _MG = "src/sedpack/io/merge_shard_infos.py"
 SELFTESTS = [
+    dict(rule="C03.append", name="shard-inserted-in-front", expect="fire",
+         path="src/sedpack/io/dataset_filler.py",
+         old="        self._shards_lists[split].shard_files.append(shard_info)\n",
+         new="        self._shards_lists[split].shard_files.insert(0, shard_info)\n"),
+    dict(rule="C03.append", name="append-through-alias-twin", expect="silent",
+         path="src/sedpack/io/dataset_filler.py",
+         old="        self._shards_lists[split].shard_files.append(shard_info)\n",
+         new="        listed = self._shards_lists[split].shard_files\n        listed.append(shard_info)\n"),
     dict(rule="C03.det", name="shuffle-guarded-by-repeat", expect="fire", path=_DI,
          old="        # Randomize only if > 0 -- no shuffle in test/validation\n        if shuffle:\n            shard_paths_iterator = shuffle_buffer(",
          new="        # Randomize only if > 0 -- no shuffle in test/validation\n        if repeat:\n            shard_paths_iterator = shuffle_buffer("),
